@@ -142,6 +142,17 @@ Theorem C01_idiv_holds_outside_K : forall a b v, canonical a && canonical b = tr
   s_dyad "eval_dyad_integer_divide" a b = Ok v -> m_dyad "eval_dyad_integer_divide" a b = Ok v.
 Proof. exact idiv_holds_outside_K. Qed.
 Print Assumptions C01_idiv_holds_outside_K.
+Theorem C01_power_holds_outside_K : forall a b v, canonical a && canonical b = true ->
+  dom_dyad "eval_dyad_power" a b = true -> k_dyad "eval_dyad_power" a b = ""%string ->
+  s_dyad "eval_dyad_power" a b = Ok v -> m_dyad "eval_dyad_power" a b = Ok v.
+Proof. exact power_holds_outside_K. Qed.
+Print Assumptions C01_power_holds_outside_K.
+(* Index-in-Depth: one index per level down to an atom, any nesting (matrices, higher rank, ragged lists) *)
+Theorem C01_index_in_depth : forall a b, canonical a && canonical b = true ->
+  dom_dyad "eval_dyad_index_in_depth" a b = true ->
+  m_dyad "eval_dyad_index_in_depth" a b = s_dyad "eval_dyad_index_in_depth" a b.
+Proof. exact index_in_depth_holds. Qed.
+Print Assumptions C01_index_in_depth.
 (* strings, characters and symbols are compared as wholes *)
 Theorem C01_less_atoms : forall a b, is_arr a = false -> is_arr b = false -> m_less a b = sc_less a b.
 Proof. exact less_atoms. Qed.
@@ -164,7 +175,7 @@ Print Assumptions C01_kind_divide_is_real.
 Theorem C01_kind_comparison_is_bit : forall a b r, sc_less a b = Ok r \/ sc_equal a b = Ok r -> r = VI 0 \/ r = VI 1.
 Proof. exact kind_compare_bit. Qed.
 Print Assumptions C01_kind_comparison_is_bit.
-Theorem C01_kind_floor_is_integer : forall a r, floor_fits a = true -> sc_floor a = Ok r -> exists z, r = VI z.
+Theorem C01_kind_floor_is_integer : forall a r, s_floor_fits a = true -> s_floor a = Ok r -> exists z, r = VI z.
 Proof. exact kind_floor_int. Qed.
 Print Assumptions C01_kind_floor_is_integer.
 
@@ -282,9 +293,28 @@ Print Assumptions C01_atomic_vec_fn.
 Theorem C01_negate : forall a, canonical a = true -> m_monad "eval_monad_negate" a = s_monad "eval_monad_negate" a.
 Proof. exact negate_holds. Qed.
 Print Assumptions C01_negate.
-Theorem C01_floor : forall a, canonical a = true -> all_leaves floor_fits a = true ->
+(* closed over the regenerated flag: floor_to_int keeps the real unless |floor| < 2.0**63, strictly *)
+Theorem C01_floor : forall a, canonical a = true -> all_leaves s_floor_fits a = true ->
   m_monad "eval_monad_floor" a = s_monad "eval_monad_floor" a.
-Proof. exact floor_holds. Qed.
+Proof. exact (floor_holds eq_refl). Qed.
+Theorem C01_floor_never_wraps : forall r z, rfloor_exact r = Some z -> in_guard true z = true -> s_floor (VR r) = Ok (VI z).
+Proof. exact floor_no_wrap. Qed.
+Print Assumptions C01_floor_never_wraps.
+Theorem C01_floor_guard_refuted_with_le :
+  let r := real_of_bits 4890909195324358656 in
+  rfloor_exact r = Some two63 /\ sc_floor_gen false (VR r) = Ok (VI int64_min) /\ s_floor (VR r) = Ok (VR r).
+Proof. exact floor_guard_refuted. Qed.
+
+(* ---- verbs are functions of the operand VALUES: no eval_* function stores into a parameter (regenerated flag), so an
+   operand object that is used again — a literal in a function body called twice, a variable, the body of Each — has
+   the same value at every use: every call returns what the verb returns on that value, and the operand is unchanged ---- *)
+Theorem C01_operands_are_not_written : forall (verb : val -> val -> res) a bs,
+  run_shared verbs_do_not_write_operands verb (Some a) bs = (map (verb a) bs, Some a).
+Proof. exact (shared_operand verbs_do_not_write_operands eq_refl). Qed.
+Print Assumptions C01_operands_are_not_written.
+Theorem C01_operand_write_refuted : forall (verb : val -> val -> res) a b1 b2,
+  fst (run_shared false verb (Some a) [b1; b2]) = [verb a b1; Unmod].
+Proof. exact shared_operand_refuted. Qed.
 Print Assumptions C01_floor.
 Theorem C01_reciprocal : forall a, canonical a = true -> m_monad "eval_monad_reciprocal" a = s_monad "eval_monad_reciprocal" a.
 Proof. exact reciprocal_holds. Qed.
